@@ -4,6 +4,7 @@
 #include <stddef.h>
 #include <string.h>
 #include <unistd.h>
+#include <sys/socket.h>
 #include "vmd_protocol.h"
 #include "vmd_server.h"
 #include "../nanoisa/verifier.h"
@@ -51,6 +52,8 @@ int main(void) {
     printf("MSG STATUS_RSP %d\n", VMD_MSG_STATUS_RSP);
     printf("DEFAULT_IDLE_TIMEOUT %d\n", VMD_DEFAULT_IDLE_TIMEOUT);
     printf("VERIFY_ERROR_SIZE %d\n", NVM_VERIFY_ERROR_SIZE);
+    printf("SO_RCVTIMEO %d\n", SO_RCVTIMEO);
+    printf("SO_SNDTIMEO %d\n", SO_SNDTIMEO);
     golden("pong", 0); golden("exit1", 1); golden("exit0", 2); golden("err_unknown", 3);
     golden("output_ab", 4); golden("status1", 5); golden("exit_m2", 6); golden("ping", 7);
     return 0;
